@@ -67,6 +67,11 @@ def run(ctx):
     from .. import rules_base as RB
     ctx.rule('R11.B', 'base model: token-type containment, token flags / normal form, Token.match and imt behave as the abstract evaluation assumes', floor=1)
     RB.check_base_model(ctx, 'R11.B', parts=('contains', 'flags', 'match', 'imt'))
+    # the vocabulary argument is about one scan of the whole text and one splitter pass over its tokens: a front end that
+    # cuts the input (at line ends, at block boundaries) separates the words of ORDER\nBY / END\nIF before the lexer sees them
+    from .. import rules_stack as RK
+    ctx.rule('R11.9', 'every entry point hands the whole text to one lexer scan and one splitter pass (pipeline shape of parse/parsestream/FilterStack.run)', floor=10)
+    RK.check_parse_pipeline(ctx, 'R11.9')
 
 
 def match_descriptor(ctx, desc):
